@@ -624,15 +624,18 @@ func (env *LEnv) Update(k, v *LVal) *LVal {
 }
 
 func (env *LEnv) update(k, v *LVal) *LVal {
-	for {
-		_, ok := env.scope[k.Str]
+	for scope := env; ; scope = scope.parent {
+		_, ok := scope.scope[k.Str]
 		if ok {
-			env.scope[k.Str] = v
+			scope.scope[k.Str] = v
 			return Nil()
 		}
-		if env.parent == nil {
+		if scope.parent == nil {
 			lerr := env.Runtime.Package.Update(k, v)
 			if lerr.Type == LError {
+				// Associated with the environment the update was made
+				// in, not the root one the walk ended at: the root
+				// environment's location is the enclosing top-level form.
 				if err := env.ErrorAssociate(lerr); err != nil {
 					return err
 				}
@@ -640,7 +643,6 @@ func (env *LEnv) update(k, v *LVal) *LVal {
 			}
 			return Nil()
 		}
-		env = env.parent
 	}
 }
 
